@@ -123,6 +123,17 @@ void a_que_swap(a_que *lhs, a_que *rhs)
 int a_que_drop(a_que *ctx, void (*dtor)(void *))
 {
     a_list *const head = &ctx->head_, *node;
+    a_size const need = ctx->cur_ + ctx->num_;
+    if (need > ctx->mem_)
+    {
+        /* make room for every node before the first one is moved, so that a failing
+           allocation leaves the queue as it was: the loop below cannot fail any more */
+        a_size const mem = a_size_up(sizeof(void *), need);
+        a_list **const ptr = (a_list **)a_alloc((void *)ctx->ptr_, sizeof(void *) * mem);
+        if (A_UNLIKELY(!ptr)) { return A_OMEMORY; }
+        ctx->ptr_ = ptr;
+        ctx->mem_ = mem;
+    }
     for (node = head->next; node != head; node = head->next)
     {
         int rc = a_que_die_(ctx, node);
